@@ -384,6 +384,15 @@ def check_member_selection(F, X7):
         pushes = [blk.i for blk in b.calls() if re.search(r'Vec::<T, A>::push$', blk.term.callee.path) and 'std::string::String' in (blk.term.args[0].ty or '') and
                   'matching_files' in show(ExprBuilder(cfg).operand(blk.term.args[0]))]
         matchers = set(blk.i for blk in b.calls() if re.search(r'glob::Pattern::matches\w*$', blk.term.callee.path))
+        # the predicate may be a local closure / helper (`let selected_by_glob = |name| name == glob.as_str() || glob.matches(name)`)
+        for blk in b.calls():
+            tgt = F.get(blk.term.callee.resolved) if blk.term.callee.resolved else None
+            if tgt is None:
+                tgt = F.get(blk.term.callee.path)
+            if tgt is not None and tgt.path != b.path and (tgt.closure_of == b.path or tgt.path.startswith(UNZIP)) and \
+                    any(re.search(r'glob::Pattern::matches\w*$', x.term.callee.path) for x in tgt.calls()):
+                matchers.add(blk.i)
+                X7.fn(tgt.path)
         for hd, lb in cfg.loops().items():
             nxt = [x for x in lb if b.blocks[x].term.k == 'call' and b.blocks[x].term.callee.path.endswith('Iterator::next')]
             lp = [p for p in pushes if p in lb]
